@@ -94,6 +94,21 @@ void conc_thread(void *arg) {
           if (rc != LDB_OK) h.rc = rc;
           else if (rows != h.rows) violation("C06", "snapshot_get_vs_iter", "thread %d: gets and a scan through one snapshot disagree (%zu vs %zu entries)", tid, h.rows.size(), rows.size());
         }
+        if (o.b == 2 && h.rc == 0) {
+          // C06 under concurrency: the snapshot is held while this thread forces a flush and a level-0 compaction
+          // (other threads keep writing); what it shows afterwards must be what it showed before
+          ldb_test_compact_memtable(C.db);
+          ldb_test_compact_range(C.db, 0, NULL, NULL);
+          std::vector<std::pair<string, string>> again;
+          for (auto &k : C.keys) { string v; int rc = db_get(C.db, k, &v, s, cfg.verify, cfg.fillc); if (rc == LDB_OK) again.push_back({k, v}); else if (rc != LDB_NOTFOUND) h.rc = rc; }
+          count("snapshot_reread_checks");
+          if (h.rc == 0 && again != h.rows) {
+            string why;
+            for (auto &kv : h.rows) { bool f = false; for (auto &kv2 : again) if (kv2 == kv) f = true; if (!f) { why = "key " + printable(kv.first) + " showed " + printable(kv.second, 16) + " before and does not any more"; break; } }
+            if (why.empty()) why = "an entry appeared that the snapshot did not show before";
+            violation("C06", "snapshot_changed", "thread %d: a snapshot taken at steps [%llu,%llu] and held across a flush and a compaction no longer shows what it showed: %s", tid, (unsigned long long)h.inv, (unsigned long long)h.ret, why.c_str());
+          }
+        }
         ldb_release(C.db, s);
         break;
       }
@@ -347,6 +362,7 @@ Plan gen_conc(uint64_t seed, const string &prop) {
   w[O_FLUSH] = sw(0.7); w[O_COMPACT_RANGE] = sw(0.7); w[O_COMPACT] = sw(0.15);
   if (prop == "C10" || prop == "C09") { w[O_PROPERTY] = sw(1); w[O_APPROX] = sw(0.7); w[O_BACKUP] = sw(0.5); }
   if (prop == "C04") { w[O_WRITE] += 8; w[O_SNAP] += 6; w[O_ITER_NEW] += 4; }
+  if (prop == "C06") { w[O_SNAP] += 10; w[O_PUT] += 6; w[O_DEL] += 3; w[O_WRITE] += 3; }
   if (prop == "C09") { w[O_PUT] += 8; w[O_FLUSH] += 1; w[O_COMPACT_RANGE] += 1; w[O_BACKUP] += 0.5; }
   double tot = 0; for (double x : w) tot += x;
   bool bigvals = !small && r.chance(0.5);
@@ -370,7 +386,7 @@ Plan gen_conc(uint64_t seed, const string &prop) {
           break;
         }
         case O_GET: o.key = r.chance(0.7) ? skey() : "g" + std::to_string(r.below(ngroups)) + "/" + std::to_string(r.below(gsize)); break;
-        case O_SNAP: o.b = r.chance(0.3); break;
+        case O_SNAP: o.b = r.chance(prop == "C06" ? 0.6 : 0.12) ? 2 : r.chance(0.3); break;
         case O_ITER_NEW: o.b = r.chance(0.5); break;
         case O_COMPACT_RANGE: o.a = (int)r.below(3); break;
         case O_PROPERTY: o.a = (int)r.below(4); break;
